@@ -197,14 +197,14 @@ func (s *server) CreateTable(ctx context.Context, req *btapb.CreateTableRequest)
 		req.Table = &btapb.Table{}
 	}
 	req.Table.Name = tbl
+	// The response is marshalled after this handler returns: it must not alias the stored table definition, which a
+	// later ModifyColumnFamilies changes in place. The copy is taken before the table becomes visible to other requests.
+	stored := proto.Clone(req.GetTable()).(*btapb.Table)
 	rows := s.storage.Create(req.Table)
 	s.tables[tbl] = newTable(req.Table, rows)
 
 	s.mu.Unlock()
 
-	// The response is marshalled after this handler returns: it must not alias the stored table definition, which a
-	// later ModifyColumnFamilies changes in place.
-	stored := proto.Clone(req.GetTable()).(*btapb.Table)
 	ct := &btapb.Table{
 		Name:           tbl,
 		ColumnFamilies: stored.GetColumnFamilies(),
